@@ -6,7 +6,9 @@ correspondence: fresh interpreter per history: random interleavings of class def
                 the {command name -> module, implementation} table of every construction, or its duplicate error, vs the model
 oracles:        a construction's table equals that of the same request made first thing in a fresh process containing the same definitions
                 (history independence); only requested libraries and their sub-modules contribute; same-named commands from two requested
-                libraries fail at construction
+                libraries fail at construction; libraries whose names differ only in the case of a letter are different libraries (synthetic modules and
+                files `dlib.py` / `DLib.py`, `dpack/` / `Dpack/`); the same files under two module names - a linked package folder, a linked module, a
+                package whose parent folder is on the search path too - are a library under each name, in whatever order they are asked for
 """
 import json
 import os
@@ -17,8 +19,10 @@ from .. import common
 from ..common import enc_str
 
 BUILTIN = ["mpilot.libraries.eems.basic", "mpilot.libraries.eems.csv", "mpilot.libraries.eems.netcdf", "mpilot.libraries.eems.fuzzy"]
-USER_MODULES = ["ulib", "ulib_extra", "ulib.sub", "ulib.sub.deep", "ulibx", "vlib", "vlib.a", "vlib.b", "vlib.a.x.y", "ulib_sub", "vlibxa", "ulibXsub.deep"]
-USER_LIBS = ["ulib", "ulib_extra", "ulibx", "vlib", "ulib.sub", "vlib.a"]
+USER_MODULES = ["ulib", "ulib_extra", "ulib.sub", "ulib.sub.deep", "ulibx", "vlib", "vlib.a", "vlib.b", "vlib.a.x.y", "ulib_sub", "vlibxa", "ulibXsub.deep",
+                # names that differ from another one only in the case of a letter (two different modules), at the top and below a dot
+                "ULib", "ulib.Sub", "Vlib.a", "vlib.A"]
+USER_LIBS = ["ulib", "ulib_extra", "ulibx", "vlib", "ulib.sub", "vlib.a", "ULib", "ulib.Sub", "vlib.A"]
 NAMES = ["Alpha", "Beta", "Gamma", "Sum", "EEMSRead"]
 
 RUNNER = r'''
@@ -138,7 +142,17 @@ DISK_FILES = {
     "dpack_more/__init__.py": None, "dpack_more/inner.py": ("dpack_more.inner", "Iota"), "dpack_more/nested/__init__.py": None, "dpack_more/nested/leaf.py": ("dpack_more.nested.leaf", "Kappa"),
     # names that differ from a dotted library name only in the character at the place of the dot
     "dpack_sub.py": ("dpack_sub", "Lambda"), "dpackXsub/__init__.py": None, "dpackXsub/m.py": ("dpackXsub.m", "Mu"), "dlib_extraZinner.py": ("dlib_extraZinner", "Nu"),
+    # a package that can be imported under two names because its parent folder is on the module search path as well: douter.dinner and dinner
+    "douter/__init__.py": None, "douter/dinner/__init__.py": None, "douter/dinner/cmds.py": ("douter.dinner.cmds", "Xi"),
 }
+# names that differ from another library's only in the case of a letter: other files, other modules (where the file system tells them apart), one command name shared
+CASE_FILES = {"DLib.py": ("DLib", "Omicron"), "Dpack/__init__.py": None, "Dpack/sub.py": ("Dpack.sub", "Eta"), "Dpack/other.py": ("Dpack.other", "Pi"), "dpack_more/Inner.py": ("dpack_more.Inner", "Rho")}
+CASE_LIBS = ["DLib", "Dpack", "Dpack.sub", "dpack_more.Inner"]
+# the same files under a second module name through symbolic links (a package folder, a single module): link -> (target, what the library offers under the link's name)
+LINKS = {"dlink": ("dpack_more", [("dlink.inner", "Iota"), ("dlink.nested.leaf", "Kappa")]), "dlibx_alias.py": ("dlibx.py", [("dlibx_alias", "Delta")])}
+LINK_LIBS = ["dlink", "dlink.nested", "dlibx_alias"]
+TWICE_ON_PATH = [("dinner.cmds", "Xi")]
+TWICE_LIBS = ["dinner", "douter", "douter.dinner"]
 DISK_LIBS = ["dl", "dlib", "dlib_extra", "dlib_more", "dlibx", "dpack", "dpack.sub", "dlib_extra.inner", "dpack.inner", "dpack_more", "dpack_more.nested", "dpack_sub", "dpackXsub", "dlib_extraZinner"]
 MISSING_LIBS = ["no_such_library", "dpack.no_such_module"]
 
@@ -146,6 +160,7 @@ DISK_RUNNER = r'''
 import sys, json
 sys.path.insert(0, SCRATCH)
 sys.path.insert(0, LIBDIR)
+sys.path.insert(1, LIBDIR + "/douter")
 from mpilot.program import Program
 from mpilot.exceptions import MPilotError
 out = []
@@ -172,7 +187,29 @@ def disk_histories(ctx, scratch):
         with open(path, "w") as f:
             if what:
                 f.write("from mpilot.commands import Command\n\n\nclass %s(Command):\n    def execute(self, **kwargs):\n        return None\n" % what[1])
-    defined = [w for w in DISK_FILES.values() if w]
+    defined = [w for w in DISK_FILES.values() if w] + TWICE_ON_PATH
+    disk_libs = DISK_LIBS + TWICE_LIBS
+    for rel, what in CASE_FILES.items():
+        path = os.path.join(libdir, rel)
+        os.makedirs(os.path.dirname(path), exist_ok=True)
+        if not os.path.exists(path):            # (on a file system that folds case `DLib.py` is `dlib.py`: the case-variant libraries are then left out)
+            with open(path, "w") as f:
+                if what:
+                    f.write("from mpilot.commands import Command\n\n\nclass %s(Command):\n    def execute(self, **kwargs):\n        return None\n" % what[1])
+    case_sensitive = set(os.listdir(libdir)) >= {"DLib.py", "dlib.py", "Dpack", "dpack"}
+    ctx.count("file_system_case_sensitive", int(case_sensitive))
+    if case_sensitive:
+        defined += [w for w in CASE_FILES.values() if w]
+        disk_libs += CASE_LIBS
+    links = True
+    try:
+        for link, (target, offers) in LINKS.items():
+            os.symlink(target, os.path.join(libdir, link))
+            defined += offers + ([("dlink.Inner", "Rho")] if case_sensitive and link == "dlink" else [])
+        disk_libs += LINK_LIBS
+    except (OSError, NotImplementedError):
+        links = False
+    ctx.count("symbolic_links_available", int(links))
     builtin = {}
     for m, n in builtin_entries():
         builtin.setdefault(m, []).append(n)
@@ -195,12 +232,22 @@ def disk_histories(ctx, scratch):
             [["dpack_sub"], ["dpackXsub"], ["dpack.sub"], ["dpack_sub", "dpack.sub"]], [["dlib_extraZinner"], ["dlib_extra.inner"]], [["dpack_sub", "dpackXsub", "dlib_extraZinner"], ["dpack.sub", "dlib_extra.inner"]],
             # a request that fails because one of its libraries cannot be imported leaves nothing behind: later requests get what they name
             [["no_such_library", "dlib"], ["dlib"]], [["dlib_extra", "no_such_library", "dpack"], ["dpack"], ["dlib_extra"], ["dlib_extra", "dpack"]],
-            [["dpack.no_such_module", "dlib_more"], ["dlib_more", "dl"], ["dpack.no_such_module", "dlib_more"], ["dlib_more"]], ["default", [], ["dlib"], "default"], [["dpack"], ["dpack.sub"], ["dlib_extra.inner"], ["dlib_extra"]]]
+            [["dpack.no_such_module", "dlib_more"], ["dlib_more", "dl"], ["dpack.no_such_module", "dlib_more"], ["dlib_more"]], ["default", [], ["dlib"], "default"], [["dpack"], ["dpack.sub"], ["dlib_extra.inner"], ["dlib_extra"]],
+            # one package importable under two names (its parent folder is on the search path too): each name offers the package's commands, whichever was asked first
+            [["dinner"], ["douter"], ["douter.dinner"], ["dinner"]], [["douter.dinner"], ["dinner"], ["dinner", "douter"]], [["douter"], ["dinner"], ["douter"]]]
+    if case_sensitive:
+        # libraries whose names differ only in the case of a letter are different libraries: each request gets its own, before and after the other was loaded
+        seqs += [[["dlib"], ["DLib"], ["dlib"]], [["DLib"], ["dlib"], ["DLib", "dlib"]], [["Dpack"], ["dpack"], ["Dpack"], ["dpack.sub"], ["Dpack.sub"]], [["dpack"], ["Dpack"], ["dpack"], ["dpack.sub", "Dpack.sub"]],
+                 [["dpack_more.Inner"], ["dpack_more.inner"], ["dpack_more"]], [["dlib", "Dpack"], ["DLib", "dpack_more"], ["dlib", "Dpack"]]]
+    if links:
+        # the same files reachable under two module names (a linked package folder, a linked module): each name is a library of its own
+        seqs += [[["dpack_more"], ["dlink"], ["dpack_more"]], [["dlink"], ["dpack_more"], ["dlink"]], [["dlink.nested"], ["dpack_more.nested"], ["dlink.nested"], ["dlink"]], [["dlibx"], ["dlibx_alias"], ["dlibx"]],
+                 [["dlibx_alias"], ["dlibx"]], [["dlink", "dpack_more"], ["dlink"]], [["dpack_more", "dl"], ["dlink", "dlibx_alias"], ["dlibx", "dpack_more.nested"]]]
     for _ in range(ctx.budget(8, 200)):
         seq = []
         for _ in range(rng.randrange(2, 7)):
             r = rng.random()
-            seq.append([] if r < 0.1 else "default" if r < 0.15 else rng.sample(DISK_LIBS + BUILTIN[:1] + (MISSING_LIBS if r > 0.85 else []), rng.randrange(1, 4)))
+            seq.append([] if r < 0.1 else "default" if r < 0.15 else rng.sample(disk_libs + BUILTIN[:1] + (MISSING_LIBS if r > 0.85 else []), rng.randrange(1, 4)))
         seqs.append(seq)
     for seq in seqs:
         code = DISK_RUNNER.replace("SCRATCH", repr(scratch)).replace("LIBDIR", repr(libdir)).replace("REQUESTS", repr(json.dumps(seq)))
@@ -253,6 +300,9 @@ def run(ctx):
         [["d", "ulib", "Alpha", 1], ["d", "ulib", "Beta", 2], ["d", "ulib", "Gamma", 3], ["c", ["ulib"]], ["c", ["ulib"]]],
         [["d", "vlib.a", "Beta", 1], ["c", ["vlib"]], ["d", "vlib.a", "Alpha", 2], ["c", ["vlib"]], ["d", "vlib", "Gamma", 3], ["d", "vlib", "Sum", 4], ["c", ["vlib"]], ["c", ["vlib.a"]]],
         [["d", "ulibx", "Beta", 1], ["d", "ulib_extra", "Alpha", 2], ["d", "ulibx", "Alpha", 3], ["d", "ulib_extra", "Beta", 4], ["c", ["ulibx"]], ["c", ["ulib_extra"]], ["c", ["ulib_extra", "vlib"]]],
+        # libraries whose names differ only in the case of a letter (`ulib` / `ULib`, `vlib.a` / `vlib.A` / `Vlib.a`): two libraries - own commands, a shared command name is no duplicate
+        [["d", "ulib", "Alpha", 1], ["d", "ULib", "Beta", 2], ["c", ["ulib"]], ["c", ["ULib"]], ["d", "ULib", "Alpha", 3], ["c", ["ulib"]], ["c", ["ULib"]], ["c", ["ULib", "ulib"]]],
+        [["d", "vlib.a", "Alpha", 1], ["d", "vlib.A", "Alpha", 2], ["d", "Vlib.a", "Gamma", 3], ["c", ["vlib.a"]], ["c", ["vlib.A"]], ["c", ["vlib"]], ["d", "ulib.Sub", "Beta", 4], ["d", "ulib.sub", "Beta", 5], ["c", ["ulib.sub"]], ["c", ["ulib.Sub"]]],
     ]
     answers = model.ask([model_line(h, builtin) for h in hists])
     for hist, ans in zip(hists, answers):
